@@ -26,14 +26,18 @@ def multichain_pdb(chains, spacing=60.0):
     out = ['CRYST1  500.000  500.000  500.000  90.00  90.00  90.00 P 1           1']
     serial = 1
     for ci, code in enumerate(chains):
-        path = os.path.join(TESTS, PEPTIDES[code], 'aa.pdb')
+        # a lower-case code is the same peptide in a DIFFERENT conformation (stretched by 8% along z): same sequence and
+        # topology up to the point where geometry enters (elastic network, geometry-derived link parameters)
+        stretch = 1.08 if code.islower() else 1.0
+        path = os.path.join(TESTS, PEPTIDES[code.upper()], 'aa.pdb')
         chain_id = 'ABCDEFGHIJ'[ci]
         for line in open(path).read().splitlines():
             if not line.startswith('ATOM'):
                 continue
             line = line.ljust(80)
             x = float(line[30:38]) + ci * spacing
-            line = '%s%5d%s%s%s%8.3f%s' % (line[:6], serial, line[11:21], chain_id, line[22:30], x, line[38:])
+            line = '%s%5d%s%s%s%8.3f%s%8.3f%s' % (line[:6], serial, line[11:21], chain_id, line[22:30], x, line[38:46],
+                                                 float(line[46:54]) * stretch, line[54:])
             out.append(line.rstrip())
             serial += 1
         out.append('TER')
